@@ -563,6 +563,25 @@ def check_skip(ctx, fi, S):
     if not isinstance(loop, ast.For):
         return
     it = loop.iter
+    if isinstance(it, ast.Name) and it.id not in fi.params:
+        # a module-level constant shared by the searches
+        mdefs = [a.value for a in fi.module.tree.body if isinstance(a, ast.Assign) and len(a.targets) == 1 and U(a.targets[0]) == it.id]
+        if len(mdefs) == 1:
+            d = mdefs[0]
+            dt = T(d)
+            import re as _re
+            m1 = _re.fullmatch(r'(?:tuple|list)\(itertools\.repeat\(None,(\d+)\)\)|(?:tuple|list)\(range\((\d+)\)\)|range\((\d+)\)|\[None\]\*(\d+)|\(None,\)\*(\d+)', dt)
+            m2 = _re.fullmatch(r'itertools\.repeat\(None,(\d+)\)|iter\(.+\)|\(.+for.+in.+\)', dt)
+            if m1:
+                n_ = next(g for g in m1.groups() if g)
+                it = ast.parse('range(%s)' % n_, mode='eval').body
+                ctx.ob('search-termination', fi, loop, int(n_) >= 200, 'the number of halvings `%s = %s` is a re-iterable constant: every call runs all %s rounds'
+                       % (loop.iter.id, U(d), n_), construct='shared trip count of ' + fi.name)
+            elif m2:
+                ctx.ob('search-termination', fi, loop, False,
+                       'the number of halvings `%s = %s` is a ONE-SHOT iterator created when the module is imported: the first search uses it up, every later '
+                       'call runs zero rounds and returns the start of its bracket' % (loop.iter.id, U(d)), construct='shared trip count of ' + fi.name)
+                return
     if not (isinstance(it, ast.Call) and U(it.func) == 'range' and len(it.args) == 1):
         raise AnalysisError('%s: unrecognised trip count `%s` of the search loop' % (fi.qualname, U(it)))
 
